@@ -65,25 +65,26 @@ macro_rules! into_int {
         conv_harness!($name, {
             let v: $t = kani::any();
             let r = <$t as ISV>::into_steelval(v);
-            kani::cover!((v as i128) > isize::MAX as i128, "above the machine word");
-            match r {
+            // (for the unsigned 64-bit types this also witnesses values above the machine word)
+            kani::cover!((v as i128) > isize::MAX as i128 || (<$t>::MAX as i128) <= isize::MAX as i128, "largest values of the type");
+            // (matched by reference and forgotten as a whole: dropping a value whose variant is
+            // symbolic makes CBMC execute the drop glue of every SteelVal variant)
+            match &r {
                 Ok(IntV(n)) => {
-                    vassert!(n as i128 == v as i128, "host integer wrapped on the way in");
+                    vassert!(*n as i128 == v as i128, "host integer wrapped on the way in");
                 }
                 Ok(BigNum(b)) => {
                     vassert!((v as i128) > isize::MAX as i128 || (v as i128) < isize::MIN as i128, "non-canonical BigNum");
                     vassert!(b.as_ref().to_i128() == Some(v as i128), "BigNum differs from host value");
-                    core::mem::forget(b);
                 }
-                Ok(other) => {
-                    core::mem::forget(other);
+                Ok(_) => {
                     vassert!(false, "host integer became a non-integer");
                 }
-                Err(e) => {
-                    core::mem::forget(e);
+                Err(_) => {
                     vassert!(false, "host integer refused");
                 }
             }
+            core::mem::forget(r);
         });
     };
 }
@@ -199,3 +200,55 @@ conv_harness!(conv_option_i32, {
     core::mem::forget(back2);
     core::mem::forget(sv2);
 });
+
+// u128 from the host: above isize::MAX it must become a big integer, never a wrapped fixnum
+conv_harness!(conv_into_u128, {
+    let v: u128 = kani::any();
+    kani::assume(v < (1u128 << 70));
+    let r = <u128 as ISV>::into_steelval(v);
+    kani::cover!(v > isize::MAX as u128 && v <= u64::MAX as u128, "between isize::MAX and u64::MAX");
+    kani::cover!(v > u64::MAX as u128, "above u64::MAX");
+    match &r {
+        Ok(IntV(n)) => {
+            vassert!(*n >= 0 && *n as u128 == v, "host u128 wrapped on the way in");
+        }
+        Ok(BigNum(b)) => {
+            vassert!(v > isize::MAX as u128, "non-canonical BigNum");
+            vassert!(b.as_ref().to_u128() == Some(v), "BigNum differs from host value");
+        }
+        Ok(_) => {
+            vassert!(false, "host integer became a non-integer");
+        }
+        Err(_) => {
+            vassert!(false, "host integer refused");
+        }
+    }
+    core::mem::forget(r);
+});
+
+// script big integer -> host i64 / u8 / i8: out of range must be an error
+macro_rules! from_big {
+    ($name:ident, $t:ty) => {
+        conv_harness!($name, {
+            let a: i128 = kani::any();
+            kani::assume((a >= (1i128 << 63) && a < (1i128 << 66)) || (a < -(1i128 << 63) && a > -(1i128 << 66)));
+            let sv = BigNum(Gc::new(num_bigint::BigInt::from(a)));
+            let r = <$t as FSV>::from_steelval(&sv);
+            kani::cover!(a > 0, "positive");
+            kani::cover!(a < 0, "negative");
+            match r {
+                Ok(v) => {
+                    let _ = v;
+                    vassert!(false, "a big integer outside the 64-bit range was converted instead of reported (truncated)");
+                }
+                Err(e) => {
+                    core::mem::forget(e);
+                }
+            }
+            core::mem::forget(sv);
+        });
+    };
+}
+from_big!(conv_from_big_i64, i64);
+from_big!(conv_from_big_u8, u8);
+from_big!(conv_from_big_i8, i8);
